@@ -69,7 +69,7 @@ LEVEL_TEXT = ('Machine-checked theorems for every request sequence, every mounti
               'for every form of root_dir / path (absolute, pkg:dir, relative to package_name= or to the creating package) and both ways of '
               'creating the view, the root of the instance the code builds is the designated directory, and containment / conformance hold '
               'against it (C16_configured_root, C16_containment_configured, C16_serves_designated_configured), also end to end for the '
-              'regenerated program: written configuration -> gen_init -> gen_call (C16_gen_end_to_end_contained / _conform); with an '
+              'regenerated program: written configuration -> gen_init -> gen_call (C16_gen_end_to_end_contained / _conform / _variant); with an '
               'X-VHM-ROOT header starting with the bare selector @@ the specification is silent but every access stays inside the root '
               '(C16_vroot_override_contained).  Ten functions of static.py and traversal.split_path_info are '
               'translated from the current source on every run and proved equal to the reference model (C16_gen_*_is_model), '
